@@ -312,10 +312,14 @@ impl Network for ChoiceNet {
                     if sh.forge_enabled {
                         match kind {
                             0 => {
+                                // every single bit of the header region (first byte incl. the reserved and
+                                // key-phase bits, connection id, packet number, first payload bytes), three
+                                // masks per byte for the rest
                                 for pos in 0..genuine.len() {
-                                    for mask in [0x01u8, 0x80, 0xff] {
+                                    let masks: &[u8] = if pos < 32 { &[0x01, 0x02, 0x04, 0x08, 0x10, 0x20, 0x40, 0x80, 0xff] } else { &[0x01, 0x80, 0xff] };
+                                    for mask in masks {
                                         let mut f = genuine.clone();
-                                        f[pos] ^= mask;
+                                        f[pos] ^= *mask;
                                         forgeries.push(f);
                                     }
                                 }
